@@ -197,9 +197,9 @@ class MessageDispatcher(ClientMessageSink):
     open_latency = open_time - start_time
 
     if timeout:
-      # Calculate the deadline for this method call.
-      # Reduce it by the time it took for the open() to complete.
-      deadline = start_time + timeout - open_latency
+      # Calculate the deadline for this method call.  It is absolute, so the
+      # time spent waiting for open() is already accounted for.
+      deadline = start_time + timeout
     else:
       deadline = None
 
